@@ -820,6 +820,20 @@ func (u *Unit) assumeLive(st *State, v Term) {
 		u.assume(and(le(Term{"0", sInt}, v), lt(v, u.nextRef(st))))
 	case KIface:
 		u.assume(Term{"(and (<= 0 (i-tag " + v.S + ")) (<= 0 (i-val " + v.S + ")) (< (i-val " + v.S + ") " + u.nextRef(st).S + ") (=> (= (i-tag " + v.S + ") 0) (= (i-val " + v.S + ") 0)))", sBool})
+	case KStruct:
+		// the references held in the fields of a struct value exist, too
+		if stt, ok := v.T.Go.Underlying().(*types.Struct); ok && u.liveDepth < 3 {
+			u.liveDepth++
+			sn := u.tc.structName(v.T.Go)
+			for i := 0; i < stt.NumFields(); i++ {
+				fs := u.tc.sortOf(stt.Field(i).Type())
+				switch fs.K {
+				case KSlice, KRef, KIface, KStruct:
+					u.assumeLive(st, Term{"(" + u.tc.fieldSel(sn, i) + " " + v.S + ")", fs})
+				}
+			}
+			u.liveDepth--
+		}
 	}
 }
 
